@@ -76,6 +76,7 @@ func DetAccount(seed string, num uint64) Account {
 type BlockMeta struct {
 	Time    time.Time
 	AppHash []byte // app hash AFTER this block (goes into the next header)
+	ResHash []byte // sha256 of the deterministic encoding of the block's results (tx results, events, validator updates)
 }
 
 // ChainState is the value part of a chain: everything needed to continue it on any App instance.
@@ -236,7 +237,23 @@ func (c *Chain) commitBlock(now time.Time, txs [][]byte) *abci.ResponseFinalizeB
 	must(err)
 	hist := make([]BlockMeta, len(c.St.Hist), len(c.St.Hist)+1)
 	copy(hist, c.St.Hist)
-	hist = append(hist, BlockMeta{Time: now, AppHash: append([]byte{}, res.AppHash...)})
+	if DebugResults != nil {
+		for _, tr := range res.TxResults {
+			DebugResults(c.Name, h, tr)
+		}
+	}
+	rh := sha256.New()
+	for _, tr := range res.TxResults {
+		bz, err := tr.Marshal()
+		must(err)
+		rh.Write(bz)
+	}
+	for _, ev := range res.Events {
+		bz, err := ev.Marshal()
+		must(err)
+		rh.Write(bz)
+	}
+	hist = append(hist, BlockMeta{Time: now, AppHash: append([]byte{}, res.AppHash...), ResHash: rh.Sum(nil)})
 	c.St = ChainState{Snap: nil, Hist: hist, ID: nextID()}
 	c.mountedID = c.St.ID
 	c.dirty = true
@@ -527,3 +544,6 @@ func DiffKVs(a, b []KV) []string {
 
 // ClientHeightZero is the zero height.
 func (c *Chain) ClientHeightZero() clienttypes.Height { return clienttypes.ZeroHeight() }
+
+// DebugResults, if set, receives every transaction result (debugging aid).
+var DebugResults func(chain string, height int64, r *abci.ExecTxResult)
